@@ -316,6 +316,7 @@ theorem between2_init (C : Checked S) (C2 : Checked2 S Ct) {P : Params} (hS : S.
     · show Good S Ct (initSt input vars).env.scopes.data (initSt input vars).env.values
         (.v id0 (match blockAt (initSt input vars).env.scopes.data (-1) with | some sc => effOuter sc (-1) id0 | none => -1))
       rw [hblk (-1) (Int.le_refl _)]
+      show Good S Ct (initSt input vars).env.scopes.data (initSt input vars).env.values (.v id0 (-1))
       exact .v (.nil (by decide)) (fun x hx => .inl (hav0 x hx)) (fun xi hxi => by rw [hasm0] at hxi; simp at hxi)
         (fun xi hxi => by rw [hasm0] at hxi; simp at hxi)
     · show (-1 : Int) ≤ Rg (initSt input vars).env.scopes
